@@ -22,7 +22,10 @@ from .report import Report, Result, load_known
 
 PROPS = ["C%02d" % i for i in range(1, 21)]
 NEVER_FROM = {"C20"}
-NEVER_INTO = {"C20"}          # rejection / non-interference does not depend on what the operations compute
+NEVER_INTO = set()
+# rejection / non-interference does not depend on what the operations compute - but it does depend on the recorded dimensions being
+# the true ones: C20 imports only the shape-bookkeeping families (constructors, resize, delete/transpose shape updates)
+ONLY_FAMILIES = {"C20": ("shape", "edit", "transpose-shape", "transpose")}
 SAME_ANCHOR = {("C09", "C08")}   # (P, Q): Q's rules at P's own anchor functions are imported too (convergence needs the residual bookkeeping)
 F64_ONLY = {"C08", "C09", "C16"}   # Sparse<f64> Krylov solvers, Vector<f64>::dot_f64: their anchors are monomorphic in f64
 SKIP_FAMILIES = ("floor", "engine", "intact", "state", "no-hidden-state", "no-unsafe", "guard", "witness", "pdb", "anchor",
@@ -85,9 +88,17 @@ def run(prop, rep, pdb):
                 p_ = callee_path(n)
                 if p_ and pdb.fn(p_) is not None:
                     continue
-                g = callee_generic(n) or p_
-                for cf in elem_impls.get(str(g), []):
-                    out.append(cf)
+                g = str(callee_generic(n) or p_)
+                # `a != b` calls `ne`, whose default is `!eq`; `<`, `<=`, `>`, `>=` default to `partial_cmp`: an impl of any
+                # method of the group decides the comparison
+                names = [g]
+                for grp in (("std::cmp::PartialEq::eq", "std::cmp::PartialEq::ne"),
+                            ("std::cmp::PartialOrd::partial_cmp", "std::cmp::PartialOrd::lt", "std::cmp::PartialOrd::le", "std::cmp::PartialOrd::gt", "std::cmp::PartialOrd::ge")):
+                    if g in grp:
+                        names = list(grp)
+                for g_ in names:
+                    for cf in elem_impls.get(g_, []):
+                        out.append(cf)
         return out
     reach = {}          # functions reachable through at least one call edge from an own anchor
     work = []
@@ -120,10 +131,14 @@ def run(prop, rep, pdb):
         for r in tmp.results:
             if r.status not in ("ok", "violation", "missing-anchor") or _family(r.key) in SKIP_FAMILIES:
                 continue
+            if prop in ONLY_FAMILIES and _family(r.key) not in ONLY_FAMILIES[prop]:
+                continue
             if r.key in known and known[r.key][0] == q:
                 continue
             f = r.fn or (fn_of_where(pdb, r.where) if r.where else None)
-            if f is None or not (f in reach or ((prop, q) in SAME_ANCHOR and f in own)):
+            if prop in ONLY_FAMILIES:
+                pass          # shape bookkeeping anywhere in the crate: every shape check reads dimensions some constructor / edit recorded
+            elif f is None or not (f in reach or ((prop, q) in SAME_ANCHOR and f in own)):
                 continue
             key = "%s/dep/%s" % (prop, r.key)
             if key in have:
